@@ -300,4 +300,69 @@ theorem tally_ok (s : State) (p : Proposal) {n : Nums} (h : J n) : ∃ r, tally 
         · exact ⟨_, rfl⟩
         · split <;> exact ⟨_, rfl⟩
 
+/-! ### no stake is counted for more than it is worth -/
+
+theorem roundHalfEven_le_succ (x : Nat) : roundHalfEven x DEC ≤ x / DEC + 1 := by
+  unfold roundHalfEven
+  simp only
+  split
+  · omega
+  · split
+    · omega
+    · split <;> omega
+
+/-- the value of a `LegacyDec` quotient: at most one unit (10^-18) above the exact quotient -/
+def quoVal (a b : Nat) : Nat := roundHalfEven (DEC * DEC * a / b) DEC
+
+theorem quoVal_le (a b : Nat) (_hb : 0 < b) : quoVal a b ≤ DEC * a / b + 1 := by
+  unfold quoVal
+  have h := roundHalfEven_le_succ (DEC * DEC * a / b)
+  have e : DEC * DEC * a / b / DEC = DEC * a / b := by
+    rw [Nat.div_div_eq_div_mul, Nat.mul_comm b DEC, Nat.mul_assoc DEC DEC a]
+    exact Nat.mul_div_mul_left _ _ (by decide)
+  omega
+
+theorem div_add_div_le (a b c : Nat) (hc : 0 < c) : a / c + b / c ≤ (a + b) / c := by
+  rw [Nat.le_div_iff_mul_le hc, Nat.add_mul]
+  have := Nat.div_mul_le_self a c
+  have := Nat.div_mul_le_self b c
+  omega
+
+def sumNat : List Nat → Nat
+  | [] => 0
+  | x :: r => x + sumNat r
+
+/-- **a validator's stake is counted at most once**: the voting powers of any voting delegators of a validator (shares
+`ds`, together at most the validator's delegator shares) plus the power left to the validator itself after their
+deduction never exceed the validator's bonded tokens by more than one unit of 10^-18 per term (the `Quo` roundings) -/
+theorem stake_counted_once (bonded shares : Nat) (hS : 0 < shares) (ds : List Nat) (hsum : sumNat ds ≤ shares) :
+    sumNat (ds.map (fun d => quoVal (d * bonded) shares)) + quoVal ((shares - sumNat ds) * bonded) shares ≤
+      DEC * bonded + ds.length + 1 := by
+  have key : ∀ (l : List Nat), sumNat (l.map (fun d => quoVal (d * bonded) shares)) ≤ DEC * (sumNat l * bonded) / shares + l.length := by
+    intro l
+    induction l with
+    | nil => simp [sumNat]
+    | cons d r ih =>
+      simp only [List.map_cons, sumNat, List.length_cons]
+      have h1 := quoVal_le (d * bonded) shares hS
+      have h2 := div_add_div_le (DEC * (d * bonded)) (DEC * (sumNat r * bonded)) shares hS
+      have e : DEC * (d * bonded) + DEC * (sumNat r * bonded) = DEC * ((d + sumNat r) * bonded) := by
+        rw [← Nat.mul_add, Nat.add_mul]
+      rw [e] at h2
+      omega
+  have h1 := key ds
+  have h2 := quoVal_le ((shares - sumNat ds) * bonded) shares hS
+  have h3 := div_add_div_le (DEC * (sumNat ds * bonded)) (DEC * ((shares - sumNat ds) * bonded)) shares hS
+  have e : DEC * (sumNat ds * bonded) + DEC * ((shares - sumNat ds) * bonded) = DEC * bonded * shares := by
+    rw [← Nat.mul_add, ← Nat.add_mul]
+    have : sumNat ds + (shares - sumNat ds) = shares := by omega
+    rw [this, Nat.mul_comm shares bonded, Nat.mul_assoc]
+  rw [e, Nat.mul_div_cancel _ hS] at h3
+  omega
+
+theorem decQuo_eq_quoVal {a b : Nat} (hb : 0 < b) : decQuo a b = some (quoVal a b) := by
+  unfold decQuo quoVal
+  have : (b == 0) = false := by simp; omega
+  simp [this]
+
 end FxVerif.Proofs.C15
